@@ -79,8 +79,10 @@ func parseLog(log []string) []evt {
 func clientOfMsg(msg int64) int {
 	if msg == 0 && curSpec != nil {
 		for ci, c := range curSpec.Conns {
-			if hasOp(c.Ops, "unbind0") {
-				return ci
+			for _, o := range c.Ops {
+				if isZeroID(o) {
+					return ci
+				}
 			}
 		}
 	}
@@ -91,7 +93,7 @@ func reqOfMsg(msg int64) int {
 	if msg == 0 && curSpec != nil {
 		for _, c := range curSpec.Conns {
 			for k, o := range c.Ops {
-				if o == "unbind0" {
+				if isZeroID(o) {
 					return k + 1
 				}
 			}
@@ -357,7 +359,7 @@ func universal(sc *Scn, x *vrt.Sched, w *World) []Finding {
 				cl = c
 			}
 		}
-		if cl == nil || cl.DialErr != nil || !stopped || sp.StopWhen != "" || len(cl.Frames) < cs.Expect {
+		if cl == nil || cl.DialErr != nil || !stopped || sp.StopWhen != "" || len(cl.Frames) < cs.Expect || sp.Srv.NoDefaultRoute {
 			continue // Stop may have come before the request was read
 		}
 		for k, op := range cs.Ops {
@@ -367,8 +369,8 @@ func universal(sc *Scn, x *vrt.Sched, w *World) []Finding {
 			if h := cs.H[k+1]; h != nil && h.Panic != "" {
 				continue
 			}
-			if cnt[msgID(ci, k+1)] == 0 {
-				add("C03", "a request is silently dropped (never dispatched to any handler)", fmt.Sprintf("message %d (%s) of client %s; dispatched: %v", msgID(ci, k+1), op, cl.Name, w.Dispatch))
+			if cnt[opMsgID(op, ci, k+1)] == 0 {
+				add("C03", "a request is silently dropped (never dispatched to any handler)", fmt.Sprintf("message %d (%s) of client %s; dispatched: %v", opMsgID(op, ci, k+1), op, cl.Name, w.Dispatch))
 			}
 		}
 	}
@@ -430,9 +432,9 @@ func universal(sc *Scn, x *vrt.Sched, w *World) []Finding {
 		var got [][]byte
 		for _, f := range frames {
 			r, err := codec.ParseResponse(f)
-			if err == nil && r.MsgID == 0 {
-				// a frame with message ID 0 is gldap's own notice of disconnection - unless the client sent an
-				// Unbind with message ID 0 and this is an answer to it
+			if err == nil && r.MsgID == 0 && !contains(wrote, f) {
+				// a frame with message ID 0 that no handler wrote is gldap's own notice of disconnection - unless the
+				// client sent an Unbind with message ID 0 and this is an answer to it
 				if hasOp(sp.Conns[ci].Ops, "unbind0") && !(r.RespName != nil && *r.RespName == "1.3.6.1.4.1.1466.20036") {
 					add("C10", "gldap itself answers an Unbind request", fmt.Sprintf("client %s got % x", c.Name, f))
 				}
